@@ -119,7 +119,9 @@ Section Gen.
           match fold_left (cmp_step tips ident idx) ks2 (Some (0%Z, 0%Z, true, false)) with
           | None => None
           | Some (total2, common, same, _) =>
-            Some (Ok (mkBS (total - common) (total2 - common) common same (compare_tip_indexes names1 names2)))
+            (* if sametree && total != common { sametree = false }   (after the loop, also after a break) *)
+            let same' := if same && negb (Z.eqb total common) then false else same in
+            Some (Ok (mkBS (total - common) (total2 - common) common same' (compare_tip_indexes names1 names2)))
           end
         end
       end
